@@ -224,10 +224,14 @@ class XMLTransformerPipeline(BaseTransformerPipeline):
                 .decode("utf-8")
                 .splitlines(keepends=True)
             )
-            diff = create_diff(
-                original_lines,
-                new_lines,
-            )
+            if not (
+                diff := create_diff(
+                    original_lines,
+                    new_lines,
+                )
+            ):
+                logger.debug("No diff produced for %s", file_path)
+                return None
 
             if not context.dry_run:
                 file_context.file_path.write_bytes("".join(new_lines).encode("utf-8"))
